@@ -235,6 +235,7 @@ pub fn check_per_misc(idx: u64, seed: u64, rep: &mut Report) {
     // octet strings: every length boundary, minimum 0..8
     let min = (idx % 9) as usize;
     let len = min + match idx % 5 {
+        _ if idx % 11 == 0 => 0,
         0 => (idx / 45 % 301) as usize,
         1 => 0x7f - (idx as usize % 3),
         2 => 0x80 + (idx as usize % 3),
@@ -247,7 +248,12 @@ pub fn check_per_misc(idx: u64, seed: u64, rep: &mut Report) {
     let d2 = data.clone();
     let r2 = mon::guarded(|| {
         let b = lib_write(|c| per::write_octet_stream(&d2, min, c))?;
-        let ok = per::read_octet_stream(&d2, min, &mut Cursor::new(b.clone())).is_ok();
+        let mut ok = per::read_octet_stream(&d2, min, &mut Cursor::new(b.clone())).is_ok();
+        // ... also when something follows it in the stream: exactly its own bytes are consumed
+        let mut followed = b.clone();
+        followed.extend_from_slice(&[0xA5, 0x5A, 0x07]);
+        let mut cur = Cursor::new(followed);
+        ok &= per::read_octet_stream(&d2, min, &mut cur).is_ok() && cur.position() as usize == b.len();
         let mut alt = d2.clone();
         let mut rejects_other = true;
         if !alt.is_empty() {
